@@ -47,6 +47,46 @@ pub struct TlsStream<IO>(pub tokio_rustls::server::TlsStream<IO>);
 #[verifier::reject_recursive_types(IO)]
 pub struct AcceptFut<IO> { pub fut: Accept<IO>, pub timeout: Sleep, pub _guard: CounterGuard }
 
+// ===================================================================== the acceptor factory
+//@include ../common/tls_factory.rs
+pub mod reexports { #[verifier::external_body] pub struct ServerConfig { _p: () } }
+#[verifier::external_body]
+#[verifier::reject_recursive_types(T)]
+pub struct Arc<T> { _p: core::marker::PhantomData<T> }
+impl<T> Arc<T> { #[verifier::external_body] pub fn new(t: T) -> (r: Arc<T>) { unimplemented!() } }
+impl<T> Clone for Arc<T> { #[verifier::external_body] fn clone(&self) -> (r: Arc<T>) ensures r == *self { unimplemented!() } }
+impl vstd::std_specs::convert::FromSpecImpl<Arc<reexports::ServerConfig>> for TlsAcceptor {
+    open spec fn obeys_from_spec() -> bool { false }
+    uninterp spec fn from_spec(c: Arc<reexports::ServerConfig>) -> TlsAcceptor;
+}
+impl From<Arc<reexports::ServerConfig>> for TlsAcceptor {
+    #[verifier::external_body]
+    fn from(c: Arc<reexports::ServerConfig>) -> (r: TlsAcceptor) { unimplemented!() }
+}
+//@check_struct file=${FILE} name=Acceptor fields=config,handshake_timeout
+//@extract_type file=${FILE} item="struct Acceptor"
+impl Acceptor {
+//@extract file=${FILE} item="impl Acceptor / fn new" ret=r props=C18 name=accept::Acceptor::new
+//@spec
+    ensures r.handshake_timeout.ns() == 3 * 1_000_000_000,   // [C18] default handshake timeout: 3 s
+//@end
+//@extract file=${FILE} item="impl Acceptor / fn set_handshake_timeout" ret=r props=C18 name=accept::Acceptor::set_handshake_timeout
+//@spec
+    // the returned reference IS the acceptor, now carrying the new timeout   [C18]
+    ensures r.handshake_timeout == handshake_timeout, r.config == old(self).config, *final(r) == *final(self),   // [C18]
+//@end
+//@extract file=${FILE} item="impl Clone for Acceptor / fn clone" ret=r props=C18 name=accept::Acceptor::clone sig_replace="fn clone(=>fn clone_("
+//@spec
+    ensures r.handshake_timeout == self.handshake_timeout, r.config == self.config,   // [C18] a cloned factory keeps its configuration
+//@end
+//@extract file=${FILE} item="impl<IO: ActixStream> ServiceFactory<IO> for Acceptor / fn new_service" ret=r props=C18 name=accept::Acceptor::new_service tls_with=MAX_CONN_COUNTER sig_replace="fn new_service(&self, _: ())=>fn new_service(&self, _unused: ())"
+//@spec
+    ensures
+        // the service bounds handshakes by the factory's configured timeout and counts them on this thread's counter   [C18]
+        r.val matches Some(Ok(svc)) && svc.handshake_timeout == self.handshake_timeout && svc.conns.id() == thread_counter_id(),
+//@end
+}
+
 impl AcceptorService {
 
 //@extract file=${FILE} item="impl<IO: ActixStream> Service<IO> for AcceptorService / fn poll_ready" ret=r props=C18 name=accept::poll_ready
